@@ -297,6 +297,38 @@ theorem render_within_one_unit (n : Nat) (h0 : 0 < n) (h : n < 2 ^ 53) :
     rw [e1, e2]
     omega
 
+/-- normalisation of the model's binary64 quotient: the significand lies in [2^52, 2^53] (so `fdiv` really rounds to 53
+significant bits, for every numerator and divisor whose quotient is below 2^53) -/
+theorem fdiv_normal (n d : Nat) (hn : 0 < n) (hd : 0 < d) (hnd : n < 2 ^ 53 * d) :
+    2 ^ 52 ≤ (fdiv n d).m ∧ (fdiv n d).m ≤ 2 ^ 53 :=
+  FxVerif.Proofs.C17.fdiv_normal n d hn hd hnd
+
+/-- binary64 division is monotone in the numerator (as dyadic rationals `m / 2^k`, across changes of the exponent) -/
+theorem fdiv_mono (n₁ n₂ d : Nat) (h0 : 0 < n₁) (h : n₁ ≤ n₂) (hd : 0 < d) (hnd : n₂ < 2 ^ 53 * d) :
+    (fdiv n₁ d).m * 2 ^ (fdiv n₂ d).k ≤ (fdiv n₂ d).m * 2 ^ (fdiv n₁ d).k :=
+  FxVerif.Proofs.C17.fdiv_mono n₁ n₂ d h0 h hd hnd
+
+/-- the rendered power difference is monotone in the exact integer sum, over the whole range of the accumulation -/
+theorem render_mono (n₁ n₂ : Nat) (h : n₁ ≤ n₂) (hb : n₂ < 2 ^ 53) : render n₁ ≤ render n₂ := by
+  unfold render
+  by_cases h0 : n₁ = 0
+  · subst h0
+    have : fmtFixed powerDiffPrecision (fdiv 0 powerDiffDivisor) = 0 := by decide
+    rw [this]
+    exact Nat.zero_le _
+  · apply FxVerif.Proofs.C17.fmtFixed_mono_value
+    apply FxVerif.Proofs.C17.fdiv_mono n₁ n₂ powerDiffDivisor (by omega) h (by decide)
+    have : powerDiffDivisor = 4294967295 := rfl
+    rw [this]
+    omega
+
+/-- … so the decision has a single cut-off: once a power difference triggers an oracle-set request, every larger one does -/
+theorem needsOracleSet_mono (n₁ n₂ pct : Nat) (h : n₁ ≤ n₂) (hb : n₂ < 2 ^ 53) (h1 : needsOracleSet n₁ pct = true) :
+    needsOracleSet n₂ pct = true := by
+  unfold needsOracleSet at *
+  simp only [ge_iff_le, decide_eq_true_eq] at *
+  exact Nat.le_trans h1 (Nat.mul_le_mul_right _ (render_mono n₁ n₂ h hb))
+
 /-- hence the decision of `isNeedOracleSetRequest` is the comparison of the EXACT rational with the threshold whenever the
 two are at least `10^-8` apart (`percentRaw`: the parameter as an 18-decimal integer, capped at 1 by the code) -/
 theorem needsOracleSet_exact_outside_band (n percentRaw : Nat) (h0 : 0 < n) (h : n < 2 ^ 53) :
@@ -470,6 +502,12 @@ theorem oracleSet_order_unique (s₁ s₂ : Sorter NS memberLe) {l₁ l₂ : Lis
 theorem oracleSet_order_is_sortMembers (s : Sorter NS memberLe) (l : List NS) : s.sort l = sortMembers l :=
   oracleSet_order_unique s (FxVerif.Proofs.C17.insertSorter memberLe FxVerif.Proofs.C17.memberLe_trans FxVerif.Proofs.C17.memberLe_total) (Perm.refl l)
 
+/-- both adversaries at once: the members collected by ranging over a map under ANY two schedules (the shape of
+`GetCurrentOracleSet` if it gathered the oracles through a map) and sorted by ANY two algorithms give the same oracle set -/
+theorem oracleSet_schedule_and_algorithm_independent (σ₁ σ₂ : Sched) (s₁ s₂ : Sorter NS memberLe) (st : St) (members : List NS) :
+    s₁.sort (rangeMap σ₁ st members).1 = s₂.sort (rangeMap σ₂ st members).1 :=
+  oracleSet_order_unique s₁ s₂ ((σ₁.perm _ _ _).trans (σ₂.perm _ _ _).symm)
+
 /-- the staking precompile's `validatorList(missed)`: the regenerated comparator looks at the missed-block counter only,
 so two correct sorting algorithms may return different lists for the same input … -/
 theorem ties_algorithm_dependent :
@@ -520,6 +558,7 @@ example : sortSites.length ≥ 5 := by decide
 example : render (2 ^ 32 - 1) = 10 ^ 8 ∧ showFixed 8 (render 123456789012) = "28.74452366" := by decide
 example : needsOracleSet 429496709 (10 ^ 17) = true ∧ needsOracleSet 429496708 (10 ^ 17) = false := by decide
 example : powerDiffStep [3, -4, 0] (10 ^ 17) = some (0, false) := by decide
+example : (fdiv 1 powerDiffDivisor) = ⟨4503599628419072, 84⟩ ∧ render 429496708 < render 429496709 := by decide
 example : sortMembers [⟨5, "0xb"⟩, ⟨7, "0xc"⟩, ⟨5, "0xa"⟩] = [⟨7, "0xc"⟩, ⟨5, "0xa"⟩, ⟨5, "0xb"⟩] := by decide
 example : powerDiffStep [2 ^ 31, 5, -4] (10 ^ 17) = some (50000000, true) := by decide
 example : absSum [3, -4, 0] = 7 := by decide
